@@ -332,12 +332,18 @@ class ClassRun:
         return r
 
 
+def _strip_ellipsis(ix):
+    return tuple(i for i in ix if i is not Ellipsis) if isinstance(ix, tuple) else ix
+
+
 def _sub_pattern(v):
-    """Sym sub(sub(M,(idx,:)),(:,idx)) -> (M, idx) or None"""
+    """Sym sub(sub(M,(idx,:)),(:,idx)) -> (M, idx) or None; a leading `...` (any number of
+    leading field axes) is ignored: the homogeneous (6,6) case is what is modelled"""
     if isinstance(v, Sym) and v.op == 'sub':
         inner, i2 = v.args
         if isinstance(inner, Sym) and inner.op == 'sub':
             M, i1 = inner.args
+            i1, i2 = _strip_ellipsis(i1), _strip_ellipsis(i2)
             if (isinstance(i1, tuple) and len(i1) == 2 and isinstance(i1[0], list) and i1[1] == slice(None, None, None)
                     and isinstance(i2, tuple) and len(i2) == 2 and i2[0] == slice(None, None, None) and i2[1] == i1[0]):
                 return M, [int(k) for k in i1[0]]
